@@ -19,11 +19,46 @@ def decMaxBits : Nat := 315
 def decOverflows (raw : Int) : Bool := decide (2 ^ decMaxBits ≤ raw.natAbs)
 def int64Max : Int := 2 ^ 63 - 1
 
-/-- x/operator/keeper/slash.go: SlashAssets — `slashUSDValue.Quo(stakingInfo.StakingAndWaitUnbonding)`;
-LegacyDec.Quo panics on a zero divisor. Reached from BeginBlock (x/slashing, x/evidence →
-dogfood.SlashWithInfractionReason → operator.Slash); operator.Slash's error path logs. -/
+/-- LegacyDec.Quo: panics on a zero divisor (cosmossdk.io/math dec.go) -/
+def decQuo? (a b : Int) : Option Int := if b = 0 then none else some ((a * decOne).tdiv b)
+
+/-- x/operator/keeper/slash.go: SlashAssets, the proportion computation:
+`if !StakingAndWaitUnbonding.IsPositive() { return nil, ErrValueIsNilOrZero }` then
+`slashUSDValue.Quo(StakingAndWaitUnbonding)`. `none` = the Quo panicked. -/
+def slashProportion (slashUSDValue stakingAndWaitUnbonding : Int) : Option (Except Unit Int) :=
+  if ¬ (0 < stakingAndWaitUnbonding) then some (.error ())
+  else match decQuo? slashUSDValue stakingAndWaitUnbonding with
+    | some q => some (.ok q)
+    | none => none
+
+/-- Reached from BeginBlock (x/slashing, x/evidence → dogfood.SlashWithInfractionReason →
+operator.SlashWithInfractionReason → Slash → SlashAssets); operator.SlashWithInfractionReason logs an
+error of Slash and returns 0: nothing is slashed, the block goes on. -/
 def slashAssets (stakingAndWaitUnbonding : Int) : Outcome :=
-  if stakingAndWaitUnbonding = 0 then .halt else .ok
+  match slashProportion 1 stakingAndWaitUnbonding with
+  | none => .halt
+  | some (.error _) => .logged
+  | some (.ok _) => .ok
+
+/-- x/operator/keeper/common_func.go: CalculateUSDValue: `divisor := NewIntWithDecimal(1, assetDecimal+priceDecimal)`,
+then `assetValueDec.QuoInt(divisor)` (big.Int.Quo panics on zero) -/
+def usdDivisor (assetDecimal priceDecimal : Int) : Int := (1 : Int) * (10 : Int) ^ (Int.toNat (assetDecimal + priceDecimal))
+
+/-- x/delegation/keeper/share.go: TokensFromShares, control flow around the Quo (raw Dec values);
+`none` = the Quo panicked -/
+def tokensFromSharesQuo? (stakerShare totalShare totalAmount : Int) : Option (Except Unit Int) :=
+  if totalShare < stakerShare then some (.error ())
+  else if totalShare = 0 then (if totalAmount = 0 then some (.ok 0) else some (.error ()))
+  else (decQuo? (stakerShare * totalAmount) totalShare).map Except.ok
+
+/-- x/feedistribution/keeper/allocation.go: AllocateTokens: `if totalPreviousPower == 0 { return nil }`
+(twice) before `NewDec(val.Power).QuoTruncate(NewDec(totalPreviousPower))`; `none` = panic -/
+def allocateFraction? (valPower totalPreviousPower : Int) : Option (Option Int) :=
+  if totalPreviousPower = 0 then some none
+  else (decQuo? (valPower * decOne) (totalPreviousPower * decOne)).map some
+
+/-- x/oracle/keeper/common/types.go: BigIntList.Median, even length: `Div(sum, big.NewInt(2))` -/
+def medianDivisor : Int := 2
 
 /-- x/gov EndBlocker → Tally → x/dogfood/keeper/impl_sdk.go: TotalBondedTokens: `panic("unimplemented…")`.
 `endingProposals` = number of proposals whose voting period ends in this block. -/
@@ -76,9 +111,8 @@ def block (s : St) : Outcome :=
   (seqO (slashStep s.slashedOperatorValue)
   (seqO (dogfoodEndBlock s.maxUsdValueInt) (govEndBlock s.endingProposals))))
 
-/-- the states excluded by the `_partial` theorem, i.e. the negation of the five recorded defects -/
+/-- the states excluded by the `_partial` theorem, i.e. the negation of the four recorded open defects (F-04b was repaired: a slash of a valueless operator is a logged error) -/
 structure Inv (s : St) : Prop where
-  slashHasValue : ∀ v, s.slashedOperatorValue = some v → v ≠ 0           -- ¬F-04b
   noTally : s.endingProposals = 0                                          -- ¬F-11a
   groupsSigned : ∀ g ∈ s.avsGroups, g.any (·.hasSignature) = true         -- ¬F-11b
   powerFits : s.maxUsdValueInt ≤ int64Max                                  -- ¬F-11f
